@@ -184,6 +184,8 @@ func runC17(r *kit.Run) {
 		s.genesis.GasLimit = genesisGasLimit
 		s.netID = s.genesis.NetworkId
 		s.accts = makeAccounts()
+		// the zero address holds funds, as burn addresses do on real chains
+		s.genesis.Alloc[common.Address{}] = core.GenesisAccount{Balance: new(big.Int).Mul(big.NewInt(1_000_000), params.StakeUint)}
 		s.genesisOp = map[common.Address]*chainkit.ValKey{}
 		for i := 1; i < nv; i++ {
 			gv := s.genesis.Validators[keys[i].Addr]
@@ -589,7 +591,7 @@ func (s *sim) candidatesFor(chain *core.BlockChain, parent *types.Block, byzanti
 	for k, n := 0, 1+c.Intn("byz-n", 2); k < n; k++ {
 		var cd *candidate
 		kind := ""
-		switch c.Weighted("byz-kind", []int{3, 3, 3, 2, 2, 2, 5}) {
+		switch c.Weighted("byz-kind", []int{3, 3, 3, 2, 2, 2, 5, 2}) {
 		case 0: // replay of a transaction already applied on this chain
 			var old []*entry
 			for _, e := range s.regList {
@@ -645,6 +647,15 @@ func (s *sim) candidatesFor(chain *core.BlockChain, parent *types.Block, byzanti
 			if len(s.withheld) > 0 {
 				e := s.withheld[c.Intn("withheld", len(s.withheld))]
 				cd, kind = &candidate{fresh(e.raw), e.name + "!withheld"}, "withheld"
+			}
+		case 7: // a high-s twin of a transaction that carries the ZERO ADDRESS's next nonce: whoever
+			// mistakes a refused signature for "sender = zero address" finds nonce and funds in order
+			a := s.accts[c.Intn("zero-twin-signer", chainkit.NClients)]
+			to := s.accts[(a.idx+1)%chainkit.NClients].addr
+			f := &txFields{Nonce: st.GetNonce(common.Address{}), Price: big.NewInt(int64(300 + a.idx)), Gas: 21000 + uint64(c.Intn("zero-twin-slack", 3))*1000, To: &to, Value: big.NewInt(int64(1 + c.Intn("zero-twin-amt", 1000)))}
+			e := s.register(a, f, kTransfer, "zero-address-nonce", nil)
+			if v := s.highSTwin(e); v != nil {
+				cd, kind = &candidate{fresh(v.raw), v.name + "!" + v.kind}, "variant.high-s-with-zero-address-nonce"
 			}
 		case 6: // a fabricated variant
 			v, prime := s.fabricate(true)
